@@ -360,7 +360,7 @@ func (t *distributedTarget) saveObject(obj object.Object, encObj encodedObject) 
 			// But this object should still be replicated according to the full policy.
 			postPlacementNodes := ecNodesForPart(nodes, t.ecPart.Index, total)
 			if len(postPlacementNodes) > 0 {
-				t.postPlacementReplicator.HandlePostPlacement(&obj, postPlacementNodes)
+				t.handOverForPostPlacement(obj, postPlacementNodes)
 			}
 			return nil
 		}
@@ -568,7 +568,7 @@ func (t *distributedTarget) replicateRemainingPrimaryNodes(obj object.Object, no
 		return
 	}
 
-	t.postPlacementReplicator.HandlePostPlacement(&obj, remainingNodes)
+	t.handOverForPostPlacement(obj, remainingNodes)
 }
 
 func (t *distributedTarget) replicateRemainingECRules(obj object.Object, ecRules []iec.Rule, nodeLists [][]netmap.NodeInfo, applied []bool) {
@@ -594,9 +594,18 @@ func (t *distributedTarget) replicateRemainingECRules(obj object.Object, ecRules
 			if len(nodes) == 0 {
 				continue
 			}
-			t.postPlacementReplicator.HandlePostPlacement(&partObj, nodes)
+			t.handOverForPostPlacement(partObj, nodes)
 		}
 	}
+}
+
+// handOverForPostPlacement passes obj to the post-placement replicator. The
+// replicator may keep the object after return (the node queues a task for
+// it) while payload buffers of the target are pooled and reused once the
+// stream is closed, so the object gets a payload of its own.
+func (t *distributedTarget) handOverForPostPlacement(obj object.Object, nodes []netmap.NodeInfo) {
+	obj.SetPayload(bytes.Clone(obj.Payload()))
+	t.postPlacementReplicator.HandlePostPlacement(&obj, nodes)
 }
 
 func (t *distributedTarget) resetMetaCollection() {
